@@ -2,6 +2,7 @@ import XmppModel.Model.Header
 import XmppModel.Model.StreamNeg
 import XmppModel.Model.Bind
 import XmppModel.Model.HeaderSend
+import XmppModel.Model.NegValue
 import XmppModel.Model.Jid
 import XmppModel.Lemmas.Header
 import XmppModel.Generated.C12
@@ -777,6 +778,63 @@ theorem C12_gen_send_history_probe :
       [false, true].flatMap fun ws => [false, true].map fun recv => (h, ws, recv, "same")) := by decide
 
 end SendHistory
+
+/-! ### Round E: one `Negotiator` value serves many sessions -/
+
+section NegValue
+open XmppModel.Header XmppModel.NegValue
+
+/-- **a negotiator value keeps nothing between sessions**: whichever sessions (kinds, roles,
+framings, addresses) the value served before and whatever its closure variables held, the header
+it sends for a session is the header of THAT session's own state; a peer reading it recovers that
+session's arguments, and on TCP the content namespace it declares is the one of the session's own
+stream kind (`jabber:server` iff the session has the S2S bit). -/
+theorem C12_negotiator_value_independent (before : List Sess) (s : Sess) (m : Option Bool) :
+    headers true m (before ++ [s]) = headers true m before ++ [printHeader s.own] ∧
+    readHeader (printHeader s.own) = some (expected s.own) ∧
+    (s.ws = false → (⟨[], kXmlns⟩, contentNS s.s2s) ∈ (expected s.own).attrs) := by
+  refine ⟨?_, C12_header_roundtrip s.own, ?_⟩
+  · simp [headers, serveAll_perSession]
+  · intro h
+    simp [expected, Sess.own, h]
+
+example : headers true none [⟨false, false, [], "example.net".toList, [], []⟩,
+      ⟨false, true, [], "example.org".toList, "example.net".toList, []⟩] =
+    [printHeader ⟨false, false, [], "example.net".toList, [], []⟩,
+     printHeader ⟨false, true, [], "example.org".toList, "example.net".toList, []⟩] := by
+  simp [headers, serveAll_perSession, Sess.own]
+
+set_option maxRecDepth 100000 in
+/-- witness that "per session" is what makes it true: a negotiator value that works the content
+namespace out on first use and keeps it in the closure serves a c2s session and then an s2s session
+— the second header declares `jabber:client`, so the peer does not recover the content namespace
+of that stream -/
+theorem C12_negotiator_memo_namespace_fails :
+    ∃ a b : Sess, ∃ h1 h2, headers false none [a, b] = [h1, h2] ∧
+      readHeader h1 = some (expected a.own) ∧
+      readHeader h2 ≠ some (expected b.own) ∧
+      readHeader h2 = some (expected { b.own with s2s := false }) :=
+  ⟨⟨false, false, [], "example.net".toList, [], []⟩,
+   ⟨false, true, [], "example.org".toList, "example.net".toList, []⟩, _, _, rfl,
+   by decide, by decide, by decide⟩
+
+/-- the expected probe table: every sequence of 2 and 3 session kinds (role × c2s/s2s) per framing;
+the last session writes what it writes alone and reports its own content namespace -/
+def negSharedExpected : List (Bool × List Nat × String × String) :=
+  [false, true].flatMap fun ws =>
+    (List.range 4).flatMap fun a => (List.range 4).flatMap fun b =>
+      let row (sq : List Nat) (last : Nat) : Bool × List Nat × String × String :=
+        (ws, sq, "same", String.mk (contentNS (decide (2 ≤ last))))
+      row [a, b] b :: (List.range 4).map fun c => row [a, b, c] c
+
+/-- regenerated by running REAL sessions on ONE `Negotiator` value: for every sequence of two and
+three sessions over the four kinds (initiating / receiving × c2s / s2s) and both framings, the last
+session writes byte for byte what it writes on a negotiator value of its own, and `Session.Out()`
+reports the content namespace of its own kind — which is what the model's `contentNS` says -/
+theorem C12_gen_neg_shared_probe :
+    Generated.C12.negSharedProbe = some negSharedExpected := by decide
+
+end NegValue
 
 /-! ### Round D: the address comparison behind every header check -/
 
